@@ -6270,7 +6270,10 @@ bool SoPlexBase<R>::setIntParam(const IntParam param, const int value, const boo
          break;
 
       case SYNCMODE_AUTO:
-         if(intParam(param) == SYNCMODE_ONLYREAL)
+
+         // when coming from SYNCMODE_ONLYREAL there is no rational LP yet; test the pointer instead of the old parameter
+         // value, because setSettings() has already overwritten the stored value when it calls this method
+         if(intParam(param) == SYNCMODE_ONLYREAL || _rationalLP == nullptr)
             _syncLPRational();
 
          break;
